@@ -16,9 +16,10 @@ import (
 )
 
 type pieceReader struct {
-	s    string
-	cuts uint64 // bit i set: cut after byte i
-	pos  int
+	s       string
+	cuts    uint64 // bit i set: cut after byte i
+	pos     int
+	eofLast bool // deliver io.EOF together with the last piece (a legal io.Reader behaviour)
 }
 
 func (r *pieceReader) Read(p []byte) (int, error) {
@@ -31,6 +32,9 @@ func (r *pieceReader) Read(p []byte) (int, error) {
 	}
 	n := copy(p, r.s[r.pos:end])
 	r.pos += n
+	if r.eofLast && r.pos >= len(r.s) {
+		return n, io.EOF
+	}
 	return n, nil
 }
 
@@ -205,6 +209,16 @@ func checkInput(s string, allChunkings bool) *nd.Violation {
 		}
 	}
 	nb := len(s)
+	if nb >= 1 {
+		got, err, v := decode(&pieceReader{s: s, eofLast: true}, limit)
+		if v != nil {
+			v.Msg = fmt.Sprintf("input %q (one read returning the data together with io.EOF): %s", s, v.Msg)
+			return v
+		}
+		if err != io.EOF || !sameToks(one, got) {
+			return &nd.Violation{Sig: "chunking:eof-with-data-differs:" + feature(s), Msg: fmt.Sprintf("input %q: a read followed by EOF gives %v; the same read returning io.EOF together with the data gives %v (err %v)", s, one, got, err)}
+		}
+	}
 	if nb < 2 {
 		return nil
 	}
@@ -233,6 +247,14 @@ func checkInput(s string, allChunkings bool) *nd.Violation {
 		}
 		if !sameToks(one, got) {
 			return &nd.Violation{Sig: "chunking:token-sequence-differs:" + feature(s), Msg: fmt.Sprintf("input %q: one read gives %v, read as %s gives %v", s, one, cutString(s, c), got)}
+		}
+		got, err, v = decode(&pieceReader{s: s, cuts: c, eofLast: true}, limit)
+		if v != nil {
+			v.Msg = fmt.Sprintf("input %q read as %s (EOF with the last piece): %s", s, cutString(s, c), v.Msg)
+			return v
+		}
+		if err != io.EOF || !sameToks(one, got) {
+			return &nd.Violation{Sig: "chunking:eof-with-data-differs:" + feature(s), Msg: fmt.Sprintf("input %q: one read gives %v, read as %s with io.EOF on the last piece gives %v (err %v)", s, one, cutString(s, c), got, err)}
 		}
 	}
 	return nil
